@@ -379,3 +379,17 @@ B('k18_helper_loops_inside_try', ['C18'], 'R18.c', (META, GMAIN, '''        full
         return ret
 '''))
 B('k18_handler_narrowed', ['C18'], 'R18.c', (META, "            except Exception as e:\n                peri_ctx = {'exc_content': repr(e)}", "            except (KeyError, TypeError) as e:\n                peri_ctx = {'exc_content': repr(e)}"))
+T('k18_providers_listed_locally', ['C18'], (META, '''            for mw in route.middlewares:
+                if arg in mw.provides:
+                    source = 'middleware'
+                    break
+''', '''            providers = [mw for mw in route.middlewares if arg in mw.provides]
+            if providers:
+                source = 'middleware'
+'''))
+T('k18_template_named_first', ['C18'], (META, "        self.loaded_template = arf.env.load(self.template_path)", "        path = self.template_path\n        template = arf.env.load(path)\n        self.loaded_template = template"),
+  (META, "        self._main_page_render = self._arf('meta_base.html')", "        base_template = 'meta_base.html'\n        self._main_page_render = self._arf(base_template)"),
+  (META, "        return self.loaded_template.render(context)", "        template = self.loaded_template\n        return template.render(context)"))
+B('k18_template_from_argument', ['C18'], 'R18.d', (META, "    def __init__(self):\n        arf = AshesRenderFactory(_CUR_PATH, keep_whitespace=False)\n        self.loaded_template = arf.env.load(self.template_path)",
+                                                   "    def __init__(self, template=None):\n        arf = AshesRenderFactory(_CUR_PATH, keep_whitespace=False)\n        self.loaded_template = arf.env.load(template or 'meta_raw.html')"))
+B('k18_other_main_template', ['C18'], 'R18.d', (META, "        self._main_page_render = self._arf('meta_base.html')", "        self._main_page_render = self._arf('meta_proc_section.html')"))
